@@ -4,6 +4,8 @@ import pandas as pd
 from ..entities.modelConstants import ModelConstants
 from ..initialize.calculate_HI_linear import calculate_HI_linear
 from ..initialize.calculate_HIGC import calculate_HIGC
+from ..initialize.read_model_initial_conditions import start_under_water_table
+from ..solution.check_groundwater_table import check_groundwater_table
 
 from typing import Tuple, TYPE_CHECKING
 
@@ -211,6 +213,22 @@ def reset_initial_conditions(
         # Reset water content to starting conditions
         # (a copy, so that in-place updates of th never alter thini)
         InitCond.th = np.copy(InitCond.thini)
+        if ParamStruct.water_table == 1:
+            # ... under the water table of the day the season starts (thini is
+            # the content as requested), exactly as on the first day of the run
+            z_gw = float(ParamStruct.z_gw[ClockStruct.time_step_counter])
+            th_fc_Adj, wt_in_soil, z_gw = check_groundwater_table(
+                Soil.Profile, z_gw, InitCond.th, InitCond.th_fc_Adj, 1, z_gw
+            )
+            InitCond.th = start_under_water_table(
+                InitCond.th,
+                InitCond.thini_fc,
+                np.round(th_fc_Adj, 3),
+                wt_in_soil,
+                z_gw,
+                Soil.profile,
+                Soil.Hydrology,
+            )
         # No evaporation / transpiration demand is carried over from the last
         # day of the previous season (read by irrigation and root development
         # on the first day of the new season)
